@@ -53,7 +53,8 @@ def build_request(i, m="GET", ver=11, conn="-", expect=False, framing=None, extr
     if k == "none":
         n = 0
     elif k == "cl":
-        hdrs.append(("content-length", str(n)))
+        # optional whitespace around a field value is not part of it (RFC 7230 3.2.4)
+        hdrs.append(("content-length", ("  %d \t" % n) if framing.get("ows") else str(n)))
         if n:
             body_parts.append({"body": [i, 0, n]})
     elif k == "chunked":
